@@ -79,6 +79,8 @@ def _call(child=False, grand=False):
       st.fixed_dictionaries({'m': st.just('blob'), 'args': st.tuples(BIN).map(list), 'outcome': st.just('value'), 'ret': BIN}),
       st.fixed_dictionaries({'m': st.just('scale'), 'args': st.tuples(DBL).map(list), 'outcome': st.just('value'), 'ret': DBL}),
       st.fixed_dictionaries({'m': st.just('names'), 'args': st.tuples(I32).map(list), 'outcome': st.just('value'), 'ret': st.lists(TEXT, max_size=4)}),
+      # two parameters of one type whose field ids are not in declaration order
+      st.fixed_dictionaries({'m': st.just('place'), 'args': st.tuples(TEXT, TEXT).map(list), 'outcome': st.just('value'), 'ret': TEXT}),
   )
   if child:
     rich = st.one_of(
@@ -132,7 +134,7 @@ def strategy(tier):
 
 
 ARG_NAMES = {'ping': [], 'echo': ['text'], 'add': ['a', 'b'], 'put': ['item'], 'risky': ['what'], 'guard': ['what'], 'flag': ['v'],
-             'blob': ['data'], 'scale': ['x'], 'names': ['n'], 'hi': ['test_data'], 'extra': ['text'], 'poke': [], 'deep': ['text']}
+             'blob': ['data'], 'scale': ['x'], 'names': ['n'], 'place': ['label', 'zone'], 'hi': ['test_data'], 'extra': ['text'], 'poke': [], 'deep': ['text']}
 
 
 def _to_item(d):
